@@ -48,6 +48,29 @@ impl Probe for ResolveProbe {
         let applied: Vec<BTreeSet<String>> = (0..n)
             .map(|r| w0.reps[r].m.verif_delta_status().into_iter().filter(|(_, s)| *s == "applied").map(|(k, _)| k).collect())
             .collect();
+        // a committed resolution is kept by the replica that made it: with nothing staged and every stored block
+        // applied, the live conflict set is the one a replica freshly opened on the same storage reports
+        // (e.g. resolve; commit; edit the same object; unstage)
+        for r in 0..n {
+            let stored: BTreeSet<String> = stores[r].keys().filter_map(|k| k.strip_suffix(".delta").map(|s| s.to_string())).collect();
+            if staged[r] || stored != applied[r] {
+                continue;
+            }
+            cx.count("live_conflict_set_equals_reopened_checks");
+            if let Ok((m2, _)) = fresh_on(&stores[r], "C07 reopen") {
+                let reopened_applied: BTreeSet<String> = m2.verif_delta_status().into_iter().filter(|(_, s)| *s == "applied").map(|(k, _)| k).collect();
+                if reopened_applied != applied[r] {
+                    continue;
+                }
+                w0.focus();
+                let live: Vec<String> = w0.reps[r].m.in_conflict().into_iter().collect();
+                let re: Vec<String> = m2.in_conflict().into_iter().collect();
+                if live != re {
+                    cx.violation("C07", "C07:committed-resolution-not-kept-by-the-live-replica", sc, hist, json!({"replica": r, "live_in_conflict": live, "reopened_in_conflict": re}));
+                    return;
+                }
+            }
+        }
         for r in 0..n {
             w0.focus();
             let conflicts: Vec<String> = w0.reps[r].m.in_conflict().into_iter().collect();
@@ -246,7 +269,7 @@ pub fn scenarios(thorough: bool) -> Vec<Scenario> {
     v.push(pair_conflict_scenario("pair-conflict-edit-vs-delete", 4, 3, if thorough { &[8, 9, 2] } else { &[9, 2] }, if thorough { 5 } else { 4 },
         &[Op::Resolve(1, 0, 0), Op::Resolve(1, 1, 1), Op::Sync(0, 1)]));
     v.push(pair_conflict_scenario("pair-conflict", 2, 3, if thorough { &[1, 8, 4] } else { &[1, 8] }, if thorough { 5 } else { 4 },
-        &[Op::Resolve(1, 0, 0), Op::Resolve(1, 0, 1), Op::Sync(0, 1)]));
+        &[Op::Resolve(1, 0, 0), Op::Resolve(1, 0, 1), Op::Sync(0, 1), Op::Unstage(1)]));
     v.push(pair_scenario("pair-arrays", if thorough { &[2, 3, 4, 9] } else { &[2, 3, 4] }, if thorough { 7 } else { 6 }, &[Op::Resolve(0, 0, 1), Op::Resolve(1, 0, 0)]));
     v.push(trio_scenario("trio", if thorough { 7 } else { 6 }));
     v.push(long_chain_scenario("pair-long-chain", if thorough { 3 } else { 2 }, &[]));
